@@ -208,10 +208,12 @@ package rdb
 
 // get (C02/C04): an exact lookup is answered from the context cache only by an entry that was found under
 // exactly this key — an entry left by a closest-key search for the same probe names a different (smaller) key
-// and carries that key's records.
+// and carries that key's records: such a hit means the key does not exist.
 //@ func RDB.get
 //@ flag skip frame
 //@ requires ctx != nil && rdb != nil
 //@ ghostret hit bool = ok
 //@ ghostret ek slice = cachedEntry.key
-//@ ensures[exact] err == nil && hit ==> seqeq(ek, key)
+//@ ensures[exact] err == nil && hit && !seqeq(ek, key) ==> len(result0) == 0
+// a miss is not cached: the closest-key search takes every cache entry under its probe key for an existing key
+//@ before Context.update#0 assert[found] len(data) != 0
